@@ -147,6 +147,7 @@ class ManualExecutor(Executor):
         self.submit_delay = 0.0         # virtual time every submit() takes
         self.fail_submits = 0           # the next n submit() calls raise TypeError
         self.precancel_next = 0         # the next n submit() calls return an already cancelled future
+        self.drain_on_shutdown = False  # shutdown(wait=True) runs what is still queued (like joining a pool)
         self.mode = mode
         self.forget = forget            # drop fn/args/future of finished items (like real pools do)
         self.lab = label
@@ -190,6 +191,12 @@ class ManualExecutor(Executor):
             for it in self.items:
                 if it.state == "queued":
                     it.future.cancel()
+        if wait and self.drain_on_shutdown:
+            while True:
+                it = self.next_queued()
+                if it is None:
+                    break
+                self._run(it)
         if wait and self.workers:
             self.mc.wait_until(lambda: self.active_workers == 0)
 
